@@ -816,7 +816,7 @@ func (w *worker) decide(it item, narrate bool) *outcome {
 				note(incs, &incOrder, "oracles-disagree/o1="+show(resO1[i])+",o2="+o2s+",v8u="+v8+"/ogen("+engine+")="+tf(og), i, true)
 				continue
 			}
-			if useO2 && nvotes < 2 {
+			if nvotes < 2 {
 				// a single reference is not enough to accuse anybody
 				o.count("pairs_with_single_oracle_not_decided", 1)
 				continue
